@@ -2,7 +2,7 @@
 //! A generator panic / exit is observed by the caller through the exit status.
 //!
 //! vgen <thrift|proto> --out <file-or-dir> [--workspace] [--split] [--keep] [--no-change-case]
-//!      [--ignore-unused] [--dedup <name,name..>] [--include <dir>]... <idl>...
+//!      [--ignore-unused] [--dedup <name,name..>] [--touch <file>:<Item,Item..>]... [--include <dir>]... <idl>...
 use pilota_build::{Builder, IdlService, Output};
 use std::path::PathBuf;
 
@@ -14,6 +14,7 @@ fn main() {
     let mut includes: Vec<PathBuf> = vec![];
     let mut idls: Vec<PathBuf> = vec![];
     let mut dedup: Vec<String> = vec![];
+    let mut touches: Vec<(PathBuf, Vec<String>)> = vec![];
     while let Some(a) = args.next() {
         match a.as_str() {
             "--out" => out = Some(PathBuf::from(args.next().unwrap())),
@@ -23,6 +24,11 @@ fn main() {
             "--no-change-case" => change_case = false,
             "--ignore-unused" => ignore_unused = true,
             "--include" => includes.push(PathBuf::from(args.next().unwrap())),
+            "--touch" => {
+                let v = args.next().unwrap();
+                let (file, items) = v.rsplit_once(':').expect("--touch file:items");
+                touches.push((PathBuf::from(file), items.split(',').filter(|x| !x.is_empty()).map(|x| x.to_string()).collect()));
+            }
             "--dedup" => dedup = args.next().unwrap().split(',').filter(|x| !x.is_empty()).map(|x| x.to_string()).collect(),
             x => idls.push(PathBuf::from(x)),
         }
@@ -44,6 +50,9 @@ fn main() {
             }
             if !dedup.is_empty() {
                 b = b.dedup(dedup.iter().map(|x| x.clone().into()));
+            }
+            if !touches.is_empty() {
+                b = b.touch(touches.clone());
             }
             b.compile_with_config(services, output);
         }
